@@ -145,6 +145,10 @@ func (s *session) state(line J) J {
 
 // Main runs the behaviours of vectorFile against the registered generated code and writes the trace.
 func Main() {
+	if len(os.Args) > 1 && os.Args[1] == "-sweep32" {
+		sweepMain(os.Args[2:])
+		return
+	}
 	if len(os.Args) != 3 {
 		fmt.Fprintln(os.Stderr, "usage: driver <vectors.ndjson> <trace.ndjson>")
 		os.Exit(2)
